@@ -14,7 +14,8 @@ Statement, clause by clause:
  * "a value whose offloaded bytes are missing reads as absent rather than as a different value"
                                             → `missing_is_absent`, `outage_is_absent`, `missing_file_cache_is_absent`,
                                               `never_a_different_value`, `get_never_fails_with_store`
- * quantifier "… or recorded twice"         → `record_twice`, `record_again_same_answer`, `rerecord_heals`
+ * quantifier "… or recorded twice"         → `record_twice`, `record_again_same_answer`, `rerecord_heals`,
+                                              `put_existing_is_noop`, `rerecord_store_unchanged`, `watch_reads_value`
  Invariant: `inv_init`, `inv_record`, `inv_env`, `reachable_inv`.  Remark: `zero_length_remark`.
 -/
 import RedunModel.Lemmas.ValueStore
@@ -292,6 +293,65 @@ theorem get_never_fails_with_store (s : St) (hI : Inv fn s) (k : Key) : ∃ r, V
       cases hs : s.store with
       | none => simp [hs] at this
       | some st => simp only; split <;> exact ⟨_, rfl⟩
+
+/-- **An existing object is never opened for writing**: `ValueStore.put` on a hash that is present changes nothing. -/
+theorem put_existing_is_noop (st : List (Key × Bytes)) (k : Key) (b d : Bytes) (h : lookup k st = some b) :
+    put st k d = st := by
+  simp [put, h]
+
+/-- … hence re-recording a value whose object exists leaves the whole store as it was (whatever the thresholds, and
+whether or not the call is rejected as too large): there is no window in which its bytes are incomplete, and a write
+fault cannot destroy them. -/
+theorem rerecord_store_unchanged (v : Val) (cfg : Cfg) (s : St) (h : hasObject (key fn v) s = true) :
+    (record fn v cfg s).1.store = s.store := by
+  by_cases hle : (ser fn v).length ≤ cfg.maxSize
+  · rw [record_ok fn v cfg s hle]
+    simp only
+    split
+    · cases hs : s.store with
+      | none => simp [hasObject, hs] at h
+      | some st =>
+        simp only [hasObject, hs] at h
+        cases hl : lookup (key fn v) st with
+        | none => simp [hl] at h
+        | some b => simp [put_existing_is_noop st _ b _ hl]
+    · rfl
+  · rw [record_too_large fn v cfg s (by omega)]
+    exact (serialize_db fn v s).2
+
+/-- A reader that looks at a recorded, intact value while another backend re-records it gets the value — never an
+error, never absent. -/
+theorem watch_reads_value (v : Val) (cfg : Cfg) (s : St) (hI : Inv fn s) (hne : ser fn v ≠ [])
+    (hrow : (lookup (key fn v) s.db).isSome = true) (hobj : hasObject (key fn v) s = true) :
+    (recordWatch fn v cfg s).2 = some (.ok (some v)) := by
+  simp only [recordWatch, hobj, if_true, Option.some.injEq]
+  obtain ⟨hdb, hst⟩ := serialize_db fn v s
+  have hdes : ∀ (x : St), x.fc = (serialize fn v s).fc → deser x (key fn v) (ser fn v) = some v := by
+    intro x hx
+    have := deser_after_serialize fn v s x.db x.store
+    simpa [deser, hx] using this
+  unfold ValueStore.get
+  rw [hdb, hst]
+  cases hl : lookup (key fn v) s.db with
+  | none => simp [hl] at hrow
+  | some d =>
+    simp only
+    rcases hI.row _ _ hl with hd | hd
+    · subst hd
+      simp only [ne_eq, not_true_eq_false, if_false]
+      cases hs : s.store with
+      | none => simp [hasObject, hs] at hobj
+      | some st =>
+        simp only [hasObject, hs] at hobj
+        cases hb : lookup (key fn v) st with
+        | none => simp [hb] at hobj
+        | some b =>
+          have : b = ser fn v := hI.store st hs _ _ hb
+          subst this
+          simp [hb, hdes (serialize fn v s) rfl]
+    · have hd' : d = ser fn v := hd
+      subst hd'
+      simp [hne, hdes (serialize fn v s) rfl]
 
 /-- Remark, outside the quantifier of the theorems above (`ser fn v ≠ []`): a value whose serialisation is zero bytes
 is indistinguishable from the placeholder — recorded inline, it reads as absent. -/
